@@ -573,14 +573,16 @@ def _issue_queries(system, obj):
         wrapper_format(obj)
 
 
-def replay_path(system, data, path, queries=False):
+def replay_path(system, data, path, queries=False, observe=True):
     """Plain re-execution of one path (no explorer): returns the trace.
     queries=True re-issues the read-only queries after every step, exactly as
     the explorer does in every state when purity checking is on (intermediate
-    queries are part of the schedule)."""
+    queries are part of the schedule). observe=False: nothing at all is asked of
+    the object between the steps (not even the decision): what a caller gets who
+    only feeds and asks at the end."""
     obj = system.new(data)
     p = 0
-    trace = [{'step': 'init', 'decision': system.decision(obj)}]
+    trace = [{'step': 'init', 'decision': system.decision(obj) if observe else None}]
     if queries:
         _issue_queries(system, obj)
     for step in path:
@@ -600,6 +602,9 @@ def replay_path(system, data, path, queries=False):
             return obj, trace
         if queries:
             _issue_queries(system, obj)
+        if not observe:
+            trace.append({'step': step})
+            continue
         trace.append({'step': step,
                       'regions': [
                           (i.NAME, n, r.offset, len(r.data), r.length)
